@@ -25,7 +25,7 @@ THEOREMS = [
     "C20_stale", "C20_stale_venue_rejected_by_price_adapter",
     "C20_pipeline_ratio_division_never_wraps", "C20_pipeline_le_scaled_rate", "C20_pipeline_overstatement_bound",
     "C20_pipeline_le_exact_rate_when_scaling_exact", "C20_pipeline_le_exact_rate_refuted",
-    "C20_drift_pipeline_le_exact_rate",
+    "C20_drift_pipeline_le_exact_rate", "C20_confidence_scaled_with_price",
 ]
 RULE = ("one case line per op of the xrate suite: price.rs functions (adjust_* on sorted raw/ratio sequences for monotonicity, "
         "from_scaled conversions, ratios, scale_supplies, convert_decimals), Kamino/Solend reserves (total supply, scaled supplies, "
